@@ -87,7 +87,7 @@ func c13Value(l cfgLeaf, which string) any {
 	case "strlist":
 		return map[string][]any{"base": {"b1-" + name, "b2-" + name}, "over": {"o1-" + name}, "over2": {"p1-" + name, "p2-" + name, "p3-" + name}, "empty": {}}[which]
 	case "strmap":
-		return map[string]map[string]any{"base": {"A": "base-a", "C": "base-c"}, "over": {"A": "over-a", "B": "over-b"}, "over2": {"A": "second-a", "D": "second-d"}, "empty": {}}[which]
+		return map[string]map[string]any{"base": {"A": "base-a", "C": "base-c", "bugs": "base-bugs", "x-lower": "base-x"}, "over": {"A": "over-a", "B": "over-b", "bugs": "over-bugs"}, "over2": {"A": "second-a", "D": "second-d", "x-lower": "second-x"}, "empty": {}}[which]
 	case "bool":
 		return map[string]bool{"base": false, "over": true, "over2": true, "empty": false}[which]
 	case "int":
